@@ -117,6 +117,12 @@ ConcVerdict(r) ==
         ELSE IF \E i \in 1..Len(r.after) : r.after[i].res # r.after[i].want
                THEN V("C04", "a get after the merge pass fails or misreads")
         ELSE OK
+    ELSE IF r.kind = "sched" THEN
+        IF r.hung THEN V("C04", "an operation never returns under an interleaving generated from BitcaskConc.tla")
+        ELSE IF r.bad_ops # <<>> THEN V("C04", "an operation panics or fails under an interleaving generated from BitcaskConc.tla: " \o r.bad_ops[1].op \o " -> " \o r.bad_ops[1].res)
+        ELSE IF \E k \in 1..Len(r.final) : Bad(r.final[k].res) THEN V("C04", "after a generated interleaving a get hangs or panics: reads are permanently impaired")
+        ELSE IF r.followed < r.steps THEN V("drift", "the real threads did not follow the generated interleaving step by step")
+        ELSE OK
     ELSE IF r.kind = "stress-final" THEN
         IF \E k \in 1..Len(r.final) : Bad(r.final[k].res) THEN V("C04", "after the concurrent run a get hangs or panics: reads are permanently impaired")
         ELSE OK
